@@ -205,6 +205,10 @@ pub fn campaigns(ctx: &Ctx) -> Stats {
         let cfg = cfg_for(t, exact);
         st.merge(ctx.run_prop(name, total / 2, move || recipe_strategy(len), move |r| Some(Case10 { hist: elaborate(&cfg, r) })));
     }
+    for (name, p) in [("programs-with-large-dimensions", Profile::LargeDims), ("programs-with-wide-magnitudes", Profile::WideMagnitudes)] {
+        let cfg = cfg_for(t, false).with_profile(p, t == Tier::Thorough, crate::exec::IS_F32);
+        st.merge(ctx.run_prop(name, crate::histcase::profile_total(t, p), move || recipe_strategy(len), move |r| Some(Case10 { hist: elaborate(&cfg, r) })));
+    }
     st
 }
 
